@@ -1,6 +1,7 @@
 //! Conformance harness for the handshake / framing properties (C14, C16, C17).
 //! Usage: hs <command> [args...]; see each module.  Rust only drives and observes; every verdict is
 //! computed by TLC from the recorded ndjson.
+mod client;
 mod drive;
 mod framing;
 mod model;
@@ -19,8 +20,12 @@ fn main() {
     match args[1].as_str() {
         "framing-enum" => framing::cmd_enum(rest),
         "framing-rand" => framing::cmd_rand(rest),
+        "client-enum" => client::cmd_enum(rest),
+        "client-rand" => client::cmd_rand(rest),
+        "client-raw" => client::cmd_raw(rest),
         "server-enum" => server::cmd_enum(rest),
         "server-rand" => server::cmd_rand(rest),
+        "server-raw" => server::cmd_raw(rest),
         other => {
             eprintln!("unknown command {other}");
             std::process::exit(2);
